@@ -290,10 +290,19 @@ tuple_impl!(18; A 0, B 1, C 2, D 3, E 4, F 5, G0 6, H 7, I 8, J 9, K 10, L 11, M
 fn seq_val<'a, T: Modeled + 'a>(it: impl ExactSizeIterator<Item = &'a T>, out: &mut String, c: bool) {
 	write!(out, "L {}", it.len()).unwrap();
 	for v in it {
+		// no value of the unchanged crate comes near this; a (mutated) decoder that returns a
+		// collection of 2^32 zero-width elements must not exhaust the harness's memory
+		if out.len() > VAL_TEXT_CAP {
+			out.push_str(" ...truncated");
+			return;
+		}
 		out.push(' ');
 		v.val(out, c);
 	}
 }
+
+/// Longest value text built for one answer (32 MiB).
+pub const VAL_TEXT_CAP: usize = 32 << 20;
 
 impl<T: Modeled, const N: usize> Modeled for [T; N] {
 	fn ty(d: usize) -> String {
@@ -417,6 +426,10 @@ impl<K: Modeled + Ord, V: Modeled> Modeled for BTreeMap<K, V> {
 	fn val(&self, out: &mut String, c: bool) {
 		write!(out, "L {}", self.len()).unwrap();
 		for (k, v) in self.iter() {
+			if out.len() > VAL_TEXT_CAP {
+				out.push_str(" ...truncated");
+				return;
+			}
 			out.push_str(" L 2 ");
 			k.val(out, c);
 			out.push(' ');
